@@ -48,7 +48,8 @@ static int hfd [NHANDLE] ;
 static long hembed [NHANDLE] ;
 static const char *tmpdir = "/verif/build/tmp" ;
 
-static void store_path (int sid, char *out, size_t n) { snprintf (out, n, "%s/sfd_%d_S%d", tmpdir, (int) getpid (), sid) ; }
+static char store_suffix [NSTORE][12] ;		/* file name extension for the path / fd routes (SD2 is recognised by name) */
+static void store_path (int sid, char *out, size_t n) { snprintf (out, n, "%s/sfd_%d_S%d%s", tmpdir, (int) getpid (), sid, store_suffix [sid]) ; }
 static void store_to_file (int sid, long pre, long post)
 {	char path [512] ; store_path (sid, path, sizeof (path)) ;
 	FILE *f = fopen (path, "wb") ; if (! f) { perror (path) ; exit (3) ; }
@@ -366,7 +367,9 @@ static void do_open (void)
 	info.format = tokhex (4) ; info.channels = tokll (5) ; info.samplerate = tokll (6) ; info.frames = ntok > 7 ? tokll (7) : 0 ;
 	int m = mode == 'r' ? SFM_READ : mode == 'w' ? SFM_WRITE : SFM_RDWR ;
 	if (mode == 'r' && ! (info.format & SF_FORMAT_TYPEMASK)) memset (&info, 0, sizeof (info)) ;
-	char route = ntok > 8 ? toks [8][0] : 'v' ; long pre = ntok > 9 ? tokll (9) : 0, post = ntok > 10 ? tokll (10) : 0 ;
+	char route = ntok > 8 ? toks [8][0] : 'v' ;
+	if (ntok > 8 && toks [8][1]) snprintf (store_suffix [sid], sizeof (store_suffix [sid]), "%s", toks [8] + 1) ;
+	long pre = ntok > 9 ? tokll (9) : 0, post = ntok > 10 ? tokll (10) : 0 ;
 	if (mode == 'w') { stores [sid].len = 0 ; }
 	stores [sid].pos = 0 ;
 	hroute [h] = route ; hfd [h] = -1 ; hembed [h] = pre ;
